@@ -681,7 +681,7 @@ func runC07(c *ctx) {
 	}
 	// well-formed specifications of many shapes (acceptance and the one-definition-per-terminal clause)
 	r3 := c.rng("wellformed")
-	for i := 0; i < c.n(6000, 50000); i++ {
+	for i := 0; i < c.n(6000, 300000); i++ {
 		g := genWellFormedSpec(r3, wfOpts{nNT: 1 + r3.intn(4), nTok: r3.intn(5), nStr: 1 + r3.intn(6), nExtraRules: r3.intn(4), nDirectives: r3.intn(4), depth: 1 + r3.intn(4), ruleHandles: r3.chance(1, 2)})
 		if c.mine() {
 			c07Check(c, fmt.Sprintf("wf%d", i), render(g, r3))
@@ -689,7 +689,7 @@ func runC07(c *ctx) {
 	}
 	// seeded larger mixes
 	r2 := c.rng("mixes")
-	for i := 0; i < c.n(1200, 12000); i++ {
+	for i := 0; i < c.n(1200, 60000); i++ {
 		g := cloneGrammar(bases[r2.intn(len(bases))])
 		for k := 0; k < 1+r2.intn(4); k++ {
 			injectors[r2.intn(len(injectors))].f(r2, g, r2.intn(6))
